@@ -120,6 +120,7 @@ func scenarios(thorough bool) []scenario {
 		{name: "shared plan, nested abstract fields, different runtime types", threads: [][]op{{{opPlanExec, "nested", 0}}, {{opPlanExec, "nested", 1}}}, planQ: "nested"},
 		{name: "shared plan executed twice per thread", threads: [][]op{{{opPlanExec, "abstract", 0}, {opPlanExec, "abstract", 1}}, {{opPlanExec, "abstract", 1}}}, planQ: "abstract"},
 		{name: "shared cache, same key", threads: [][]op{{{opCacheExec, "frag", 0}}, {{opCacheExec, "frag", 1}}}, maxEnt: 2},
+		{name: "shared cache, three gets of one key", threads: [][]op{{{opCacheExec, "enum-out", 0}}, {{opCacheExec, "enum-out", 0}}, {{opCacheExec, "enum-out", 0}}}, maxEnt: 2},
 		{name: "shared cache of size 1, two keys and a reset", threads: [][]op{{{opCacheExec, "frag", 0}}, {{opCacheExec, "enum-out", 0}}, {{opReset, "", 0}}}, maxEnt: 1},
 		{name: "normalising cache, literal-only difference", threads: [][]op{{{opCacheExecN, "enum-in", 0}}, {{opCacheExecN, "enum-in", 0}}}, maxEnt: 2},
 		{name: "shared plan, literal arguments, resolvers that scribble on their arguments", threads: [][]op{{{opPlanExec, "static", 0}}, {{opPlanExec, "static", 1}}}, planQ: "static"},
